@@ -3,7 +3,7 @@
    generator) actually establish and keep key = from-scratch hash on whole games is, beyond the lemmas
    below, decided by the correspondence check against Spec.hash on every prefix of generated games. *)
 From Walleye Require Import Model.Successor Model.TextMove Model.Fen Spec.Abs Proofs.Cells Proofs.HashProofs Proofs.KeyInvariant Proofs.ZobristConcrete
-     Proofs.GenerateAbs Proofs.LegalMoves Proofs.MakeMoveSame Gen.ZobristTable.
+     Proofs.GenerateAbs Proofs.LegalMoves Proofs.MakeMoveSame Proofs.FenAccept Proofs.FenLegal Gen.ZobristTable.
 Open Scope N_scope.
 
 (* the helpers that do not touch the squares keep key = hash (abs board), for every table *)
@@ -32,6 +32,17 @@ Proof. exact hash_placement_set. Qed.
 Theorem C05_generator_keeps_invariant : forall zt s m x,
   gen_ok zt s -> In x (generate_moves zt s m) -> key_ok zt x.
 Proof. exact generate_moves_key_ok. Qed.
+
+(* the FEN loader: for every table and every string it accepts, the key it computes is the from-scratch hash of
+   the position the loaded state denotes *)
+Theorem C05_loader_establishes_invariant : forall zt fen st, from_fen zt fen = Ok st -> key_ok zt st.
+Proof. exact accepted_key_ok. Qed.
+
+(* and the loaded state - key included - is a function of that position alone: two accepted strings that
+   denote the same position (same placement, side to move, rights, en-passant square) give the same state *)
+Theorem C05_loader_depends_on_position_only : forall zt fen st fen' st',
+  from_fen zt fen = Ok st -> from_fen zt fen' = Ok st' -> abs st = abs st' -> zobrist_key st = zobrist_key st'.
+Proof. intros zt fen st fen' st' H H' A. now rewrite (accepted_state_determined zt fen st fen' st' H H' A). Qed.
 
 (* the text-move applier keeps the invariant too, on every move the generator can produce (by C01: every legal move) *)
 Theorem C05_replay_keeps_invariant : forall zt s x txt y,
@@ -97,6 +108,8 @@ Print Assumptions C05_unset_en_passant_keeps_invariant.
 Print Assumptions C05_set_en_passant_keeps_invariant.
 Print Assumptions C05_hash_of_written_square.
 Print Assumptions C05_generator_keeps_invariant.
+Print Assumptions C05_loader_establishes_invariant.
+Print Assumptions C05_loader_depends_on_position_only.
 Print Assumptions C05_replay_keeps_invariant.
 Print Assumptions C05_generator_and_replay_agree.
 Print Assumptions C05_concrete_piece_words.
